@@ -149,3 +149,23 @@ M("c14.errored-list-only-error", "C14", SUMR, "        elif scenario.status.is_e
 # (computing the v2/v3 total from the shown parts is equivalent: omitted parts are zero)
 M("c14.v1B-lookup-by-enum-only", "C14", SUMR, "        counts_total = select_status_count(status_counts, Status.passed, 0)", "        counts_total = status_counts.get(Status.passed, 0)")
 M("c14.rule-line-dropped", "C14", SUMR, "        has_rules = (self.rule_summary[\"all\"] > 0)", "        has_rules = (self.rule_summary[\"all\"] > 1)")
+
+# ---- C15 -------------------------------------------------------------------
+JS = "behave/formatter/json.py"
+M("c15.result-before-match", "C15", MOD, "        if not quiet:\n            for formatter in runner.formatters:\n                formatter.match(match)\n\n        if capture:",
+  "        if not quiet:\n            for formatter in runner.formatters:\n                formatter.result(self)\n                formatter.match(match)\n\n        if capture:")
+M("c15.eof-not-sent-for-failing-feature", "C15", MOD, "        if should_run_entity or runner.config.show_skipped:\n            callback_name = \"{0}_finished\".format(entity_name)",
+  "        if (should_run_entity or runner.config.show_skipped) and not (failed_count and entity_name == \"feature\"):\n            callback_name = \"{0}_finished\".format(entity_name)")
+M("c15.json-step-index-not-reset", "C15", JS, "        if scenario.description:\n            element[\"description\"] = scenario.description\n        self._step_index = 0",
+  "        if scenario.description:\n            element[\"description\"] = scenario.description")
+M("c15.json-status-from-feature", "C15", JS, "            status_name = self.current_scenario.status.name\n", "            status_name = self.current_feature.status.name\n")
+M("c15.plain-pops-from-end", "C15", "behave/formatter/plain.py", "        step = self.steps.pop(0)\n", "        step = self.steps.pop()\n")
+M("c15.json-rule-background-keeps-scenario", "C15", JS, "        self.finish_current_scenario()\n        self.current_scenario = None\n        element = self.add_feature_element({\n            \"type\": \"background\"",
+  "        element = self.add_feature_element({\n            \"type\": \"background\"")
+M("c15.close-twice", "C15", RUN, "        for formatter in self.formatters:\n            formatter.close()", "        for formatter in self.formatters:\n            formatter.close()\n            if self.aborted:\n                formatter.close()")
+M("c15.progress2-hook-error-as-E", "C15", "behave/formatter/progress.py", '        Status.hook_error: "H",', '        Status.hook_error: "E",')
+M("c15.json-table-rows-transposed", "C15", JS, '            "rows": [list(row) for row in table.rows]', '            "rows": [list(row)[::-1] for row in table.rows]')
+M("c15.dry-run-undefined-no-events", "C15", MOD, "                        if dry_run_scenario:\n                            # -- EMULATE: Step.run() protocol for undefined step.", "                        if False:\n                            # -- EMULATE: Step.run() protocol for undefined step.")
+M("c15.steps-announced-after-first-step", "C15", MOD, "        if run_scenario or runner.config.show_skipped:\n            for step in self:\n                for formatter in runner.formatters:\n                    formatter.step(step)",
+  "        if run_scenario or runner.config.show_skipped:\n            for step in list(self)[:1]:\n                for formatter in runner.formatters:\n                    formatter.step(step)")
+M("c15.jsonparser-duplicates-background", "C15", "behave/json_parser.py", "                                  background_steps=[])", "                                  )")
